@@ -194,6 +194,10 @@ impl<'a> MlpgGlobalVariance<'a> {
     /// Adjust parameter's deviation from mean value using gv_mean
     fn conv_gv(&mut self, gv_mean: f64) {
         let (mean, vari) = self.calc_gv();
+        if vari == 0.0 {
+            // A constant trajectory has no deviation to rescale (and 0/0 would poison it with NaN).
+            return;
+        }
         let ratio = (gv_mean / vari).sqrt();
         self.par
             .iter_mut()
